@@ -79,6 +79,48 @@ classify_len!(c08_classify_n7, 7);
 #[cfg(vp_thorough)]
 classify_len!(c08_classify_n8, 8);
 
+/// Dash-heavy tokens: every buffer of exactly 5 bytes over {-, a, NUL}.  A small
+/// alphabet keeps this query cheap even if the implementation under test uses heavier
+/// string machinery; it pins `--`, `---`, `-`, `--a`, `-a-` and friends.
+#[kani::proof]
+#[kani::unwind(11)]
+fn c08_classify_dashes() {
+    let raw: [u8; L] = kani::any();
+    let n: usize = 5;
+    let mut i = 0;
+    while i < L {
+        kani::assume(raw[i] == b'-' || raw[i] == b'a' || raw[i] == 0);
+        i += 1;
+    }
+    let want: Items<L1> = classify::<L, L1>(&raw, n);
+    let text = unsafe { core::str::from_utf8_unchecked(&raw[..n]) };
+    let base = text.as_ptr() as usize;
+    let list = ArgList::new(Tokens::from_raw(text, false));
+    let mut it = list.args();
+    let mut k = 0usize;
+    while k <= L {
+        if k < want.n {
+            match it.next() {
+                None => assert!(false),
+                Some(Arg::Value(v)) => {
+                    assert!(want.kind[k] == VALUE && v.len() == want.len[k]);
+                    assert!(v.len() == 0 || v.as_ptr() as usize - base == want.off[k]);
+                }
+                Some(Arg::LongOption(v)) => {
+                    assert!(want.kind[k] == LONG && v.len() == want.len[k]);
+                    assert!(v.as_ptr() as usize - base == want.off[k]);
+                }
+                Some(Arg::ShortOption(c)) => assert!(want.kind[k] == SHORT && c as u32 == want.scalar[k]),
+                Some(Arg::DoubleDash) => assert!(want.kind[k] == DD),
+            }
+        }
+        k += 1;
+    }
+    assert!(it.next().is_none());
+    kani::cover!(want.n == 1 && want.kind[0] == LONG && want.len[0] == 3 && raw[2] == b'-', "long option whose name starts with a dash");
+    kani::cover!(want.n == 2 && want.kind[0] == DD && want.kind[1] == VALUE && want.len[1] == 2, "-- then --");
+}
+
 /// Reachability twin.
 #[kani::proof]
 #[kani::unwind(11)]
